@@ -127,11 +127,11 @@ Qed.
 Lemma list_eqb_refl l : list_eqb N.eqb l l = true.
 Proof. induction l as [|x tl IH]; cbn [list_eqb]; [reflexivity | rewrite N.eqb_refl, IH; reflexivity]. Qed.
 
-Lemma holds_apply_model auto servers lifetime addrs raw :
+Lemma holds_apply_model auto servers lifetime addrs :
   (forall l, addrs = Some l -> Forall (fun e => ip_addr e < 2 ^ 128) l) ->
-  holds_apply (mkCase raw (Ok (auto, servers)) lifetime addrs (rdnss_Apply auto lifetime servers addrs)) = true.
+  holds_apply_on (Ok (auto, servers)) lifetime addrs (rdnss_Apply auto lifetime servers addrs) = true.
 Proof.
-  intros Hdom. unfold holds_apply. cbn [c_parsed c_obs c_addrs c_lifetime].
+  intros Hdom. unfold holds_apply_on.
   destruct auto.
   2:{ cbn [rdnss_Apply]. rewrite Z.eqb_refl, list_eqb_refl. reflexivity. }
   destruct addrs as [l|]; [|reflexivity].
@@ -201,8 +201,17 @@ Proof.
   rewrite IH, andb_true_r. apply N.ltb_lt. inversion Hall; assumption.
 Qed.
 
-Lemma holds_parse_model raw lifetime addrs obs :
-  holds_parse (mkCase (Some raw) (parse_rdnss raw) lifetime addrs obs) = true.
+Lemma holds_again_model auto servers lifetime addrs k :
+  (forall l, addrs = Some l -> Forall (fun e => ip_addr e < 2 ^ 128) l) ->
+  forallb (holds_apply_on (Ok (auto, servers)) lifetime addrs)
+          (repeat (rdnss_Apply auto lifetime servers addrs) k) = true.
+Proof.
+  intros Hdom. apply forallb_forall. intros x Hx. apply repeat_spec in Hx. subst x.
+  apply holds_apply_model, Hdom.
+Qed.
+
+Lemma holds_parse_model raw lifetime addrs obs again :
+  holds_parse (mkCase (Some raw) (parse_rdnss raw) lifetime addrs obs again) = true.
 Proof.
   unfold holds_parse. cbn [c_raw c_parsed].
   destruct (parse_rdnss raw) as [[auto servers]|e] eqn:Ep.
@@ -229,23 +238,32 @@ Proof.
 Qed.
 
 (* config driver cases: the stanza's server list is parsed, then the plugin applied *)
-Theorem C14_checker_accepts_model_config : forall raw lifetime addrs,
+Definition config_obs (raw : list raw_server) (lifetime : Z) (addrs : option (list sysip)) : result (list opt) :=
+  match parse_rdnss raw with
+  | Ok (auto, servers) => rdnss_Apply auto lifetime servers addrs
+  | Err e => Err e
+  end.
+
+(* [k] further applications of the same plugin value *)
+Theorem C14_checker_accepts_model_config : forall raw lifetime addrs k,
   (forall l, addrs = Some l -> Forall (fun e => ip_addr e < 2 ^ 128) l) ->
   holds (mkCase (Some raw) (parse_rdnss raw) lifetime addrs
-           (match parse_rdnss raw with
-            | Ok (auto, servers) => rdnss_Apply auto lifetime servers addrs
-            | Err e => Err e
-            end)) = true.
+           (config_obs raw lifetime addrs) (repeat (config_obs raw lifetime addrs) k)) = true.
 Proof.
-  intros raw lt addrs Hdom. unfold holds. rewrite holds_parse_model. cbn [andb].
-  destruct (parse_rdnss raw) as [[auto servers]|e]; [apply holds_apply_model, Hdom | reflexivity].
+  intros raw lt addrs k Hdom. unfold holds, holds_apply, holds_again, config_obs. rewrite holds_parse_model.
+  cbn [andb c_parsed c_lifetime c_addrs c_obs c_again].
+  destruct (parse_rdnss raw) as [[auto servers]|e].
+  - rewrite holds_apply_model by exact Hdom. apply holds_again_model, Hdom.
+  - cbn [holds_apply_on andb]. apply forallb_forall. intros x _. reflexivity.
 Qed.
 
 (* plugin driver cases: the plugin value is given directly *)
-Theorem C14_checker_accepts_model_plugin : forall auto servers lifetime addrs,
+Theorem C14_checker_accepts_model_plugin : forall auto servers lifetime addrs k,
   (forall l, addrs = Some l -> Forall (fun e => ip_addr e < 2 ^ 128) l) ->
-  holds (mkCase None (Ok (auto, servers)) lifetime addrs (rdnss_Apply auto lifetime servers addrs)) = true.
+  holds (mkCase None (Ok (auto, servers)) lifetime addrs (rdnss_Apply auto lifetime servers addrs)
+                (repeat (rdnss_Apply auto lifetime servers addrs) k)) = true.
 Proof.
-  intros auto servers lt addrs Hdom. unfold holds.
-  rewrite holds_apply_model by exact Hdom. reflexivity.
+  intros auto servers lt addrs k Hdom. unfold holds, holds_apply, holds_again.
+  cbn [c_parsed c_lifetime c_addrs c_obs c_again holds_parse c_raw andb].
+  rewrite holds_apply_model by exact Hdom. apply holds_again_model, Hdom.
 Qed.
